@@ -106,7 +106,7 @@ pub fn run_paused<T>(fut: impl Future<Output = T>) -> Result<T, RunError> {
             .await
         });
         // let engine-spawned tasks finish / be dropped
-        rt.shutdown_timeout(Duration::from_millis(200));
+        rt.shutdown_timeout(Duration::from_millis(20));
         out
     }));
     match r {
